@@ -109,6 +109,12 @@ def handle : Handler := fun j => do
     match (if op == "selectVRO" then selectVRO else selectVROTwice) (← cfgOfJson (← j.getObjVal? "cfg")) (← argsOfJson (← j.getObjVal? "args")) with
     | .ok o => pure (Json.mkObj [("out", "ok"), ("vro", ofStrs o.vro), ("exact", o.exact)])
     | .error e => pure (Json.mkObj [("out", "err"), ("err", errName e)])
+  | "tableLineVro" =>
+    let lv ← (match j.getObjVal? "lineVro" with
+      | .ok Json.null => pure none
+      | .error _ => pure none
+      | .ok v => do pure (some (← strsOf v)) : Except String (Option (List Str)))
+    pure (Json.mkObj [("vro", ofStrs (tableLineVro (← jstrs j "vro") lv (← jstrs j "lineTags") (← jbool j "lineKeep")))])
   | "cmp" => pure (Json.mkObj [("cmp", (simpleCmp (← jstr j "a") (← jstr j "b") : Int))])
   | "match" => pure (Json.mkObj [("match", simpleMatch (← jstr j "v") (← jstr j "x"))])
   | _ => throw s!"unknown op {op}"
